@@ -156,5 +156,5 @@ def parts(tier):
     return [
         Part("enum-swapRes", "enum", check=check, cases=enum_cases, exhaustive=True, shards={"quick": 8, "thorough": 16}),
         Part("hyp-move-chains", "hyp", check=check, strategy=lambda t: hyp_case(40),
-             examples={"quick": 1600, "thorough": 16000}, shards={"quick": 16, "thorough": 16}),
+             examples={"quick": 4800, "thorough": 32000}, shards={"quick": 16, "thorough": 16}),
     ]
